@@ -101,6 +101,52 @@ theorem listing_complete (keys : List Key) (size : Nat) (hsz : 1 ≤ size) (hs :
     collect (rangeKeys keys) size ((rangeKeys keys).length + 1) none = rangeKeys keys :=
   paging_complete _ size hsz (rangeKeys_sorted keys hs)
 
+theorem lt_of_common (p : List Char) (a b : List Char) (h : a < b) : p ++ a < p ++ b := by
+  induction p with
+  | nil => simpa using h
+  | cons c cs ih => exact List.Lex.cons ih
+
+theorem le_append (p a : List Char) : p ≤ p ++ a := by
+  induction p with
+  | nil => exact List.nil_le _
+  | cons c cs ih =>
+    simp only [List.cons_append]
+    exact List.cons_le_cons_iff.mpr (Or.inr ⟨rfl, ih⟩)
+
+/-- `record_key_in_range`: the key `prefix ++ id` of an origin-side record lies in the listed range
+    for **every** id (any characters, U+10FFFF included, the empty id too). -/
+theorem record_key_in_range (id : String) :
+    fromPrefix ≤ fromPrefix ++ id ∧ fromPrefix ++ id < endKey := by
+  constructor
+  · show ¬ (fromPrefix ++ id).toList < fromPrefix.toList
+    rw [String.toList_append]
+    exact List.not_lt.mpr (le_append _ _)
+  · show (fromPrefix ++ id).toList < endKey.toList
+    rw [String.toList_append]
+    have h1 : fromPrefix.toList = "/transfer/from".toList ++ ['/'] := by decide
+    have h2 : endKey.toList = "/transfer/from".toList ++ ['0'] := by decide
+    rw [h1, h2, List.append_assoc]
+    apply lt_of_common
+    exact List.Lex.rel (by decide)
+
+/-- `every_record_listed`: following the bookmarks lists every existing origin-side record,
+    whatever its id, for every page size of at least one. -/
+theorem every_record_listed (keys : List Key) (size : Nat) (hsz : 1 ≤ size) (hs : Sorted keys)
+    (id : String) (h : fromPrefix ++ id ∈ keys) :
+    fromPrefix ++ id ∈ collect (rangeKeys keys) size ((rangeKeys keys).length + 1) none := by
+  rw [listing_complete keys size hsz hs]
+  unfold rangeKeys
+  have := record_key_in_range id
+  simp only [List.mem_filter, Bool.and_eq_true, decide_eq_true_eq]
+  exact ⟨h, this.1, this.2⟩
+
+/-- only record keys are listed: a listed key starts with the prefix -/
+theorem listed_keys_are_records (keys : List Key) (k : Key) (h : k ∈ rangeKeys keys) :
+    fromPrefix ≤ k ∧ k < endKey := by
+  unfold rangeKeys at h
+  simp only [List.mem_filter, Bool.and_eq_true, decide_eq_true_eq] at h
+  exact h.2
+
 /-- every page has at most `size` entries -/
 theorem page_size_le (R : List Key) (b : Option Key) (size : Nat) : (page R b size).1.length ≤ size := by
   simp [page, List.length_take]; omega
